@@ -19,9 +19,26 @@
   on the layouted type (mutually with field lists) and on the member list; crashes are excluded by C09's totality lemma.
 -/
 import Varlink.Idl.Layout
+import Varlink.Extracted.Idl
 import VarlinkProofs.Lemmas.IdlRender
 namespace Varlink.C05
 open Varlink Varlink.Idl
+
+/-- The string literals of idl.go the model is written against, regenerated from /repo's source on every run
+    (lean/Varlink/Extracted/Idl.lean): the two interface-name patterns (modelled by `matchDn` / `matchXdn`), the keywords
+    of `readType` and `readIDL`, the error messages (`PErr`). A change of any of them breaks this theorem. -/
+theorem source_literals :
+    Extracted.idlNameRegexps =
+      ["^[a-zA-Z]+(\\.[a-zA-Z0-9]+([-][a-zA-Z0-9]+)*)+", "^xn--[a-z0-9]+(\\.[a-z0-9]+([-][a-z0-9]+)*)+"] ∧
+    Extracted.idlTypeKeywords = ["string", "bool", "int", "float", "string", "object"] ∧
+    Extracted.idlMemberStrings =
+      ["interface", "missing interface keyword", "interface name", "type", "type `%s` already defined", "method",
+       "method `%s` already defined", "error", "error `%s` already defined", "unknown keyword '%s'"] ∧
+    Extracted.idlMessages =
+      ["missing type name", "missing type declaration", "missing method type", "missing method input",
+       "missing method '->' operator", "missing method output", "missing error name", "invalid error type",
+       "no methods defined"] := by
+  decide
 
 /-- **Parse what was rendered** (partial: inside the three layout guards of `LIdl.fits`): the description is
     accepted and the tree is exactly the one the text denotes — interface name, every member in source order, every
@@ -71,9 +88,6 @@ theorem gapDoc_line (st : Bool × Bytes) :
 
 /-- the tree without documentation and description (what "does not depend on layout" refers to) -/
 def skeleton (t : Idl) : Bytes × List Member := (t.name, t.members.map (Member.setDoc []))
-
-theorem erase_setDoc (m : LMember) (d : Bytes) : (m.erase d).setDoc [] = m.erase [] := by
-  cases m <;> rfl
 
 /-- **Layout independence**: two layouts (inside the guards) of the same syntax give the same tree — same name, same
     members in the same order with the same types; if also the comment blocks above the members agree, the same
